@@ -2,7 +2,9 @@
 
 Obligations: Props/C06.v (snep_put_exact, snep_get_exact, snep_excess_refused,
 handover_exact, ... for all message sizes and MIUs, over every interleaving of deliveries on
-an abstract reliable ordered channel).
+an abstract reliable ordered channel) + bridge lemmas over the fragmentation arithmetic
+regenerated from the four source files on every run (translate/kspec_c06.py -> Gen/SnepK.v,
+Bridge/Snep.v).
 Correspondence: (1) each real function alone (SnepClient.put_octets / get_octets,
 SnepServer._serve incl. process_snep_request, HandoverClient.send_octets + recv_octets,
 HandoverServer.serve) against a scripted fake socket vs the extracted automaton on the same
@@ -425,18 +427,18 @@ def fullstack_run(kind, ops, cfg, max_acc, answers):
                 if op[0] == 'put':
                     c = nfc.snep.SnepClient(cl_llc)
                     c.socket, c.send_miu = sock, info['send_miu']
-                    r = c.put_octets(op[1], timeout=20.0)
+                    r = c.put_octets(op[1], timeout=8.0)
                     results.append({True: 'true', False: 'false'}.get(r, repr(r)))
                 elif op[0] == 'get':
                     c = nfc.snep.SnepClient(cl_llc, max_ndef_msg_recv_size=op[2])
                     c.socket, c.send_miu = sock, info['send_miu']
-                    r = c.get_octets(op[1], timeout=20.0)
+                    r = c.get_octets(op[1], timeout=8.0)
                     results.append('none' if r is None else 'octets:' + H(bytes(r)))
                 else:
                     if not hc.send_octets(op[1]):
                         results.append('sendfailed')
                         continue
-                    r = hc.recv_octets(timeout=20.0)
+                    r = hc.recv_octets(timeout=8.0)
                     results.append('none' if r is None else 'octets:' + H(bytes(r)))
             except nfc.snep.SnepError as e:
                 results.append('sneperror:%d' % e.errno)
@@ -584,6 +586,8 @@ def main():
     ck.trusted = ['Coq 8.16.1 kernel (vm_compute only in the non-vacuity examples); no native_compute',
                   'ndeflib 0.3.x as oracle: which octet strings decode (strict / default / relax) and that '
                   'decode-then-encode is the identity on the canonical encodings used as test messages',
+                  'translate/kspec_c06.py + translate/py2coq.py (kernels cut out of snep/handover client and server; '
+                  'struct formats >B/>L expanded by kspec_c06.py)',
                   'extraction: ExtrOcamlBasic only; extract/c06_run.ml driver; OCaml 4.13.1',
                   'harness/sim/fakesock.py (scripted socket, ideal in-memory channel with token-passing threads)']
     ck.assumptions = ['the channel is reliable, ordered and bounds the message size per direction (the service of the '
@@ -595,7 +599,8 @@ def main():
                       'when the peer does not answer (virtual time)',
                       'connection setup / release (connect, accept, close) and the server listen threads are outside '
                       'the model (C05/C17/C09)']
-    ck.coq(gen=[], targets=['Proofs/SnepChunks.vo', 'Proofs/SnepSched.vo', 'Proofs/Snep.vo', 'Proofs/SnepHo.vo'], props='C06')
+    ck.coq(gen=['SnepK'], targets=['Proofs/SnepChunks.vo', 'Proofs/SnepSched.vo', 'Proofs/Snep.vo', 'Proofs/SnepHo.vo',
+                                     'Gen/SnepK.vo', 'Bridge/Snep.vo'], props='C06')
     mr = ck.model()
     if mr is None:
         ck.finish()
